@@ -132,6 +132,15 @@ func genC14(g *gen) {
 			g.serialProgram(f, dt, []int{2, 2}, "contig", "some", 1)
 		}
 	}
+	// text formats and strings that look like syntax (leading '#', separators, quotes): every format, string vectors and
+	// matrices, value set 1
+	for _, f := range serialFormats {
+		for _, sh := range [][]int{{3, 2}, {1, 3}, {3, 1}, {4}, {2, 3}} {
+			for _, lay := range []string{"contig", "physT"} {
+				g.serialProgram(f, "str", sh, lay, "none", 1)
+			}
+		}
+	}
 	// 2. formats x shapes x layouts, element types / masks / value sets rotating (all in thorough)
 	k := 0
 	for _, f := range serialFormats {
